@@ -255,6 +255,14 @@ def run(ctx):
     rule6(ctx, prog, flows)
     rule7(ctx, prog, flows, all_sites)
     rule8(ctx, prog, flows)
+    from engines import check_unwrapped_callee_kinds
+
+    from props.c15 import subgraph_edge_source
+
+    ctx.rule("R-C20-10", "get_subgraph unwraps the constructor's result: its edge argument holds every stored edge at most once (taken from get_all_edges alone), so DuplicateEdge cannot arise")
+    subgraph_edge_source(ctx, prog, flows, "R-C20-10", "a repeated edge makes new_from_nodes_and_edges answer DuplicateEdge, and get_subgraph (and modularity / Louvain above it) unwrap that")
+    n9 = check_unwrapped_callee_kinds(ctx, prog, flows, "R-C20-9", None, "a call that used to return a value now panics on the input that takes the new error path")
+    ctx.floor("R-C20-9", "unwrapped_crate_calls", n9, 25)
     # R-C20-5: recursion inventory
     cg = prog.call_graph()
     rec = [c for c in prog.sccs(set(prog.bodies)) if len(c) > 1 or c[0] in cg.get(c[0], ())]
